@@ -25,12 +25,14 @@ type c20Case struct {
 	Kind   string // injection kind
 	Prefix string // text before the root bracket
 	Mask   uint32 // bit i set: newline in the gap before token i (bit len(Toks): after the last token)
-	Inner  bool   // additionally a raw LF inside the first string token preceding the detection point
+	Inner  int    // the first string token preceding the detection point additionally holds: 1 = a raw LF plus escaped newlines, 2 = escaped newlines only
 	Style  int    // what a selected gap receives: index into c20GapStyles
 }
 
 // what a selected gap receives: a bare LF, LF after a filler character, a blank line, CRLF, LF followed by indentation
-var c20GapStyles = []string{"\n", " \n", "\n\n", "\r\n", "\n  ", "\r", "\r\r\n", "\n\r", "\t\n\t"}
+var c20GapStyles = []string{"\n", " \n", "\n\n", "\r\n", "\n  ", "\r", "\r\r\n", "\n\r", "\t\n\t",
+	// white space that editors show as a line break but that is not a newline character: NEL, LS, PS, VT, FF
+	string(rune(0x85)), string(rune(0x2028)) + "\n", string(rune(0x2029)), "\v\f"}
 
 // styles from this index on are "secondary": used for layouts with at most two filled gaps and for all-gaps
 const c20PrimaryStyles = 5
@@ -40,7 +42,7 @@ var lineRe = regexp.MustCompile(`line (\d+)`)
 func c20Text(k c20Case) (text string, detectOff int) {
 	var sb strings.Builder
 	sb.WriteString(k.Prefix)
-	innerDone := !k.Inner
+	innerDone := k.Inner == 0
 	for i, t := range k.Toks {
 		if k.Mask&(1<<uint(i)) != 0 {
 			sb.WriteString(c20GapStyles[k.Style])
@@ -49,7 +51,13 @@ func c20Text(k c20Case) (text string, detectOff int) {
 			detectOff = sb.Len()
 		}
 		if !innerDone && i < k.Detect && len(t) >= 2 && t[0] == '"' {
-			t = t[:1] + "\n" + t[1:]
+			// a raw newline inside the string (counts), followed by ESCAPED newlines, which are ordinary characters
+			// of the text (the two-character sequence backslash-n and backslash-u000a do not count)
+			raw := "\n"
+			if k.Inner == 2 {
+				raw = "" // no raw control character at all: a literal that a "fast path" for clean strings accepts
+			}
+			t = t[:1] + raw + bs + "n" + bs + "u000a" + string(rune(0x2028)) + t[1:]
 			innerDone = true
 		}
 		sb.WriteString(t)
@@ -174,7 +182,7 @@ func runC20(c *ev.Ctx) {
 	if c.Thorough() {
 		nodes, maxGapsFull = 5, 12
 	}
-	c.Rule(fmt.Sprintf("skeletons = every tree with <= %d nodes, depth <= 3 over leaves {1,\"s\",true}, keys {a,b}; injections at every applicable token: unexpected character where a key must start (after '{' and after ','), wrong closer after a comma, unexpected character between key and colon, unexpected character after a nested value in an object, invalid literal (tru/nul/1x/-) terminated by its following delimiter; newline layouts = every subset of token gaps is filled when the document has <= %d gaps (else every layout with <= 3 filled gaps plus all-gaps), each in 5 filling styles (LF, SP LF, LF LF, CR LF, LF SP SP; layouts with <= 2 filled gaps and all-gaps also in 4 more: lone CR, CR CR LF, LF CR, TAB LF TAB), x 4 prefixes before the root bracket, x optional raw LF inside a preceding string; ParseFile reads the object-rooted texts from a temp file for the layouts with at most one filled gap (all styles but LF LF) and for all-gaps (every style). Expected line = 1 + number of LF bytes before the detection character in the whole input. Non-trivial = distinct text whose expected line is > 1.", nodes, maxGapsFull))
+	c.Rule(fmt.Sprintf("skeletons = every tree with <= %d nodes, depth <= 3 over leaves {1,\"s\",true}, keys {a,b}; injections at every applicable token: unexpected character where a key must start (after '{' and after ','), wrong closer after a comma, unexpected character between key and colon, unexpected character after a nested value in an object, invalid literal (tru/nul/1x/-) terminated by its following delimiter; newline layouts = every subset of token gaps is filled when the document has <= %d gaps (else every layout with <= 3 filled gaps plus all-gaps), each in 5 filling styles (LF, SP LF, LF LF, CR LF, LF SP SP; layouts with <= 2 filled gaps and all-gaps also in 8 more: lone CR, CR CR LF, LF CR, TAB LF TAB, NEL, LS LF, PS, VT FF), x 4 prefixes before the root bracket, x optional raw LF + escaped newlines (backslash-n, backslash-u000a) + U+2028 inside a preceding string; ParseFile reads the object-rooted texts from a temp file for the layouts with at most one filled gap (all styles but LF LF) and for all-gaps (every style). Expected line = 1 + number of LF bytes before the detection character in the whole input. Non-trivial = distinct text whose expected line is > 1.", nodes, maxGapsFull))
 	c.Assume("errors whose message cites no line are outside the statement; their number is reported as errors_without_line")
 	dir, err := os.MkdirTemp("/verif/.cache/tmp", "c20files")
 	if err != nil {
@@ -209,9 +217,9 @@ func runC20(c *ev.Ctx) {
 				}
 				for _, m := range masks {
 					for pi, pre := range c20Prefixes {
-						inner := []bool{false}
+						inner := []int{0}
 						if pi == 0 {
-							inner = []bool{false, true}
+							inner = []int{0, 1, 2}
 						}
 						for _, in := range inner {
 							for st := range c20GapStyles {
@@ -255,7 +263,7 @@ func runC20(c *ev.Ctx) {
 			c.Violate(ev.Violation{Sig: sig, Msg: msg, Witness: map[string]interface{}{"text": text, "detect_offset": off, "injection": k.Kind}}, func() string { _, s, _ := c20One(k, ""); return s })
 		}
 		// ParseFile for object-rooted texts, on layouts with at most one LF (file I/O is slow)
-		if k.Root == spec.Obj && !k.Inner && (k.Mask&(k.Mask-1) == 0 && (k.Style <= 1 || k.Style >= 3) || k.Mask == 1<<uint(len(k.Toks)+1)-1) {
+		if k.Root == spec.Obj && k.Inner == 0 && (k.Mask&(k.Mask-1) == 0 && (k.Style <= 1 || k.Style >= 3) || k.Mask == 1<<uint(len(k.Toks)+1)-1) {
 			c.Eval(1)
 			path := filepath.Join(dir, fmt.Sprintf("w%d.json", w))
 			if msg, sig, _ := c20One(k, path); msg != "" {
